@@ -1,9 +1,15 @@
 package sim
 
 import (
+	"fmt"
+
 	kruiseappsv1alpha1 "github.com/openkruise/kruise-api/apps/v1alpha1"
+	rolloutsv1alpha1 "github.com/openkruise/rollouts/api/v1alpha1"
+	deployutil "github.com/openkruise/rollouts/pkg/controller/deployment/util"
 	"github.com/openkruise/rollouts/pkg/util"
+	apps "k8s.io/api/apps/v1"
 	corev1 "k8s.io/api/core/v1"
+	"k8s.io/apimachinery/pkg/util/intstr"
 )
 
 // WorkloadView is the kind-independent view of the workload the monitors judge against. Counts come from
@@ -54,8 +60,75 @@ func ViewWorkload(w *World, sc *Scenario) *WorkloadView {
 		_, v.InProgress = cs.Annotations[util.InRolloutProgressingAnnotation]
 		fillPods(v, ownedPods(w, sc.ns(), cs.UID))
 		return v
+	case "Deployment":
+		d := &apps.Deployment{}
+		if !w.Get(d, sc.ns(), AppName) {
+			return nil
+		}
+		h := util.ComputeHash(&d.Spec.Template, nil)
+		v := &WorkloadView{Kind: "Deployment", Replicas: int(*d.Spec.Replicas), Paused: d.Spec.Paused,
+			Image: d.Spec.Template.Spec.Containers[0].Image, UpdateRev: d.Name + "-" + h,
+			Generation: d.Generation, ObservedGeneration: d.Status.ObservedGeneration, Annotations: d.Annotations, Labels: d.Labels,
+			ByRevision: map[string]int{}, ReadyByRevision: map[string]int{}}
+		_, v.Controlled = d.Annotations[util.BatchReleaseControlAnnotation]
+		_, v.InProgress = d.Annotations[util.InRolloutProgressingAnnotation]
+		v.Exposure, v.KnobText = deploymentExposure(w, sc, d)
+		var pods []*corev1.Pod
+		for _, o := range w.Store.PeekAll("pods") {
+			p := o.(*corev1.Pod)
+			if p.Namespace == sc.ns() && p.Labels["app"] == AppName {
+				pods = append(pods, p)
+			}
+		}
+		fillPods(v, pods)
+		return v
 	}
 	return nil
+}
+
+// deploymentExposure: new-revision pods the current knobs let the native / advanced controller run.
+func deploymentExposure(w *World, sc *Scenario, d *apps.Deployment) (int, string) {
+	replicas := int(*d.Spec.Replicas)
+	switch sc.Style {
+	case "canary":
+		// extra canary Deployment(s): their spec.replicas
+		n, names := 0, ""
+		for _, o := range w.Store.PeekAll("deployments") {
+			c := o.(*apps.Deployment)
+			if c.Namespace == d.Namespace && c.Labels[util.CanaryDeploymentLabel] == d.Name && c.DeletionTimestamp == nil {
+				n += int(*c.Spec.Replicas)
+				names += c.Name + " "
+			}
+		}
+		if !d.Spec.Paused {
+			return replicas, "stable Deployment not paused"
+		}
+		return n, fmt.Sprintf("canary Deployment replicas=%d (%s)", n, names)
+	case "partition":
+		if _, ok := d.Annotations[rolloutsv1alpha1.DeploymentStrategyAnnotation]; !ok {
+			if d.Spec.Paused {
+				return 0, "paused"
+			}
+			return replicas, "not paused, no strategy annotation"
+		}
+		st := util.GetDeploymentStrategy(d)
+		if st.Paused {
+			return 0, "strategy paused"
+		}
+		lim := deployutil.NewRSReplicasLimit(st.Partition, d)
+		return int(lim), "strategy partition=" + st.Partition.String()
+	case "bluegreen":
+		if d.Spec.Paused {
+			return 0, "paused"
+		}
+		ms := 0
+		if d.Spec.Strategy.RollingUpdate != nil && d.Spec.Strategy.RollingUpdate.MaxSurge != nil {
+			ms, _ = intstr.GetScaledValueFromIntOrPercent(d.Spec.Strategy.RollingUpdate.MaxSurge, replicas, true)
+			return ms, "maxSurge=" + d.Spec.Strategy.RollingUpdate.MaxSurge.String()
+		}
+		return replicas, "no maxSurge"
+	}
+	return 0, ""
 }
 
 func fillPods(v *WorkloadView, pods []*corev1.Pod) {
@@ -64,14 +137,14 @@ func fillPods(v *WorkloadView, pods []*corev1.Pod) {
 			continue
 		}
 		v.Pods++
-		h := shortHash(podRev(p))
+		h := shortHash(podRevOf(p))
 		v.ByRevision[h]++
 		ready := isPodReady(p)
 		if ready {
 			v.Ready++
 			v.ReadyByRevision[h]++
 		}
-		if podRev(p) == v.UpdateRev {
+		if shortHash(podRevOf(p)) == shortHash(v.UpdateRev) {
 			v.Updated++
 			if ready {
 				v.UpdatedReady++
@@ -89,6 +162,61 @@ func exposureOf(sc *Scenario, obj interface{}) int {
 		}
 		r := int(*o.Spec.Replicas)
 		return r - ceilPartition(o.Spec.UpdateStrategy.Partition, r)
+	case *apps.Deployment:
+		return exposureOfDeployment(sc, o)
+	}
+	return 0
+}
+
+// controlledOf tells whether a stored workload object carries the BatchRelease control-info annotation.
+func controlledOf(obj interface{}) bool {
+	type annotated interface{ GetAnnotations() map[string]string }
+	if a, ok := obj.(annotated); ok {
+		_, has := a.GetAnnotations()[util.BatchReleaseControlAnnotation]
+		return has
+	}
+	return false
+}
+
+// podRevOf: CloneSet pods carry controller-revision-hash, ReplicaSet pods only pod-template-hash.
+func podRevOf(p *corev1.Pod) string {
+	if r := podRev(p); r != "" {
+		return r
+	}
+	return "x-" + p.Labels[apps.DefaultDeploymentUniqueLabelKey]
+}
+
+// exposureOfDeployment is used by exposureOf for stored Deployment objects (partition / blue-green knobs live
+// on the object itself; the canary style's knob is the canary Deployment's replicas).
+func exposureOfDeployment(sc *Scenario, d *apps.Deployment) int {
+	replicas := int(*d.Spec.Replicas)
+	switch sc.Style {
+	case "canary":
+		if d.Labels[util.CanaryDeploymentLabel] != "" {
+			return replicas
+		}
+		return -1
+	case "partition":
+		if _, ok := d.Annotations[rolloutsv1alpha1.DeploymentStrategyAnnotation]; !ok {
+			if d.Spec.Paused {
+				return 0
+			}
+			return replicas
+		}
+		st := util.GetDeploymentStrategy(d)
+		if st.Paused {
+			return 0
+		}
+		return int(deployutil.NewRSReplicasLimit(st.Partition, d))
+	case "bluegreen":
+		if d.Spec.Paused {
+			return 0
+		}
+		if d.Spec.Strategy.RollingUpdate != nil && d.Spec.Strategy.RollingUpdate.MaxSurge != nil {
+			ms, _ := intstr.GetScaledValueFromIntOrPercent(d.Spec.Strategy.RollingUpdate.MaxSurge, replicas, true)
+			return ms
+		}
+		return replicas
 	}
 	return 0
 }
